@@ -19,11 +19,12 @@ static int fail(const char* what, const std::string& got, const std::string& wan
 	for (unsigned char c : want) printf("\\x%02x", c);
 	printf("\"\n"); return 1;
 }
+static bool g_quiet = false;
 static int check(const char* what, const String& s, const std::string& want) {
 	std::string got(s.data(), s.length());
 	if (got != want) return fail(what, got, want);
 	if ((int)strlen(s.data()) != s.length() && want.find('\0') == std::string::npos) { printf("REPRODUCED %s: length() %d != strlen %d\n", what, s.length(), (int)strlen(s.data())); return 1; }
-	printf("OK %s\n", what); return 0;
+	if (!g_quiet) printf("OK %s\n", what); return 0;
 }
 
 int main(int argc, char** argv)
@@ -63,5 +64,53 @@ int main(int argc, char** argv)
 	if (cmd == "ltoa") { Long x = atoll(argv[2]); String s(x); char b[32]; snprintf(b, 32, "%lld", x); if (check("String(Long)", s, b)) return 1; if (s.toLong() != x) { printf("REPRODUCED Long round trip\n"); return 1; } return 0; }
 	if (cmd == "fmt") { int L = atoi(argv[2]); std::string w(L, 'x'); for (int i = 0; i < L; i++) w[i] = (char)('a' + i % 26);   // output of exactly L bytes
 		return check("String::f", String::f("%s", w.c_str()), w); }
+	if (cmd == "battery") { g_quiet = true;   // asl::String against std::string for lengths straddling 15/16 (inline), 20/24 (first heap size), 255/256 (format buffer) and 1 KiB (growth policy)
+		int lens[] = { 0, 1, 2, 7, 8, 14, 15, 16, 17, 19, 20, 23, 24, 25, 31, 32, 33, 63, 64, 100, 254, 255, 256, 257, 511, 1023, 1024, 1025, 2049 };
+		const int NL = sizeof(lens) / sizeof(lens[0]);
+		auto mk = [](int n, int seed) { std::string r; for (int i = 0; i < n; i++) r.push_back(char('a' + (i * 7 + seed) % 26)); return r; };
+		for (int a = 0; a < NL; a++) { std::string x = mk(lens[a], 1);
+			if (check("String(const char*)", String(x.c_str()), x)) return 1;
+			if (check("String(const char*, n)", String(x.c_str(), (int)x.size()), x)) return 1;
+			{ String c(x.c_str()); String d = c; d += 'q'; if (check("copy then += char", d, x + "q") || check("original after copy", c, x)) return 1; }
+			for (int b = 0; b < NL; b += 2) { std::string y = mk(lens[b], 5);
+				{ String s(x.c_str()); s += y.c_str(); if (check("operator+=", s, x + y)) return 1; }
+				{ String s(x.c_str()); s.append(y.data(), (int)y.size()); if (check("append(b, n)", s, x + y)) return 1; }
+				{ String s(x.c_str()); s.assign(y.data(), (int)y.size()); if (check("assign(b, n)", s, y)) return 1; }
+				{ String s = String(x.c_str()) + String(y.c_str()); if (check("operator+", s, x + y)) return 1; } }
+			// the string appended / assigned to itself or to a piece of itself
+			{ String s(x.c_str()); s += s; if (check("s += s", s, x + x)) return 1; }
+			for (int off = 0; off <= (int)x.size(); off += (x.size() > 40 ? 37 : 1)) for (int n = 0; off + n <= (int)x.size(); n += (x.size() > 40 ? 41 : 1)) {
+				{ String s(x.c_str()); s.append(s.data() + off, n); if (check("append(own piece)", s, x + x.substr(off, n))) return 1; }
+				{ String s(x.c_str()); s.assign(s.data() + off, n); if (check("assign(own piece)", s, x.substr(off, n))) return 1; }
+				{ String s(x.c_str()); if (check("substring", s.substring(off, off + n), x.substr(off, n))) return 1; if (check("substr", s.substr(off, n), x.substr(off, n))) return 1; } }
+			{ String s(x.c_str()); for (int m : { 0, 5, 15, 16, 30, 1200 }) { String t = s; t.resize(m); t.fix(m < (int)x.size() ? m : (int)x.size()); if ((int)strlen(*t) != t.length()) { printf("REPRODUCED resize(%d) of a %d-character string: length() %d != strlen %d\n", m, (int)x.size(), t.length(), (int)strlen(*t)); return 1; } } }
+			// formatting: results of every length across the 255-byte stack buffer of String::f and the String(n, fmt) constructor
+			if (check("String::f", String::f("%s", x.c_str()), x)) return 1;
+			if (check("String::f with number", String::f("%s=%i", x.c_str(), -12345), x + "=-12345")) return 1;
+			if (check("String(n, fmt)", String(0, "%s|%s", x.c_str(), "z"), x + "|z")) return 1;
+		}
+		// search, split / join, replace, trim
+		{ const char* texts[] = { "", "a", "abcabcabc", "aaaa", "aaa", "abababa", "xx,yy,,zz,", ",", "ab--cd--", "--", "no separator here", "  padded \t text \n", "   ", "x", "aXbXXc" };
+		  const char* pats[] = { "a", "bc", "aa", "aba", ",", "--", "X", "abcabcabcd", " " };
+		  for (const char* t : texts) { std::string st = t; String s(t);
+			for (const char* pp : pats) { std::string sp = pp;
+				size_t r = st.rfind(sp); if (s.lastIndexOf(pp) != (r == std::string::npos ? -1 : (int)r)) { printf("REPRODUCED \"%s\".lastIndexOf(\"%s\") = %d, reference %d\n", t, pp, s.lastIndexOf(pp), r == std::string::npos ? -1 : (int)r); return 1; }
+				size_t f = st.find(sp); if (s.indexOf(pp) != (f == std::string::npos ? -1 : (int)f) || s.contains(pp) != (f != std::string::npos)) { printf("REPRODUCED \"%s\".indexOf(\"%s\")\n", t, pp); return 1; }
+				std::vector<std::string> ref; { size_t i = 0; for (;;) { size_t j = st.find(sp, i); if (j == std::string::npos) { ref.push_back(st.substr(i)); break; } ref.push_back(st.substr(i, j - i)); i = j + sp.size(); } }
+				Array<String> parts = s.split(pp); if (parts.length() != (int)ref.size()) { printf("REPRODUCED \"%s\".split(\"%s\") gives %d pieces, reference %d\n", t, pp, parts.length(), (int)ref.size()); return 1; }
+				for (int i = 0; i < parts.length(); i++) if (std::string(*parts[i], parts[i].length()) != ref[i]) { printf("REPRODUCED \"%s\".split(\"%s\") piece %d\n", t, pp, i); return 1; }
+				if (check("split then join", parts.join(pp), st)) return 1;
+				std::string rr; { size_t i = 0; for (;;) { size_t j = st.find(sp, i); if (j == std::string::npos) { rr += st.substr(i); break; } rr += st.substr(i, j - i) + "<>"; i = j + sp.size(); } }
+				if (check("replace", s.replace(pp, "<>"), rr)) return 1; }
+			std::string tr = st; size_t b = tr.find_first_not_of(" \t\n\r"); tr = b == std::string::npos ? "" : tr.substr(b, tr.find_last_not_of(" \t\n\r") - b + 1);
+			if (check("trimmed", s.trimmed(), tr)) return 1; { String u(t); u.trim(); if (check("trim", u, tr)) return 1; } } }
+		// integers: boundaries of every width, to text and back
+		{ long long vals[] = { 0, 1, -1, 9, 10, -10, 99999, 2147483647LL, -2147483647LL - 1, 4294967295LL, 99999999999999LL, -99999999999999LL, -100000000000000LL, 999999999999999LL, -999999999999999LL, 9223372036854775807LL, -9223372036854775807LL - 1 };
+		  for (long long v : vals) { char b[40]; snprintf(b, 40, "%lld", v); String s((Long)v); if (check("String(Long)", s, b)) return 1; if (s.toLong() != v) { printf("REPRODUCED Long round trip of %lld\n", v); return 1; }
+			if (v >= -2147483647LL - 1 && v <= 2147483647LL) { String t((int)v); if (check("String(int)", t, b)) return 1; if ((int)t != (int)v) { printf("REPRODUCED int round trip of %lld\n", v); return 1; } }
+			if (v >= 0) { snprintf(b, 40, "%llu", (unsigned long long)v); String u((ULong)v); if (check("String(ULong)", u, b)) return 1; } }
+		  { String u(18446744073709551615ULL); if (check("String(ULong max)", u, "18446744073709551615")) return 1; String w(4294967295u); if (check("String(unsigned max)", w, "4294967295")) return 1; } }
+		printf("OK\n"); return 0;
+	}
 	printf("unknown command\n"); return 2;
 }
